@@ -111,12 +111,12 @@ Proof.
   induction p as [|[s|f] p IH]; intros names path vs t Hid Hlen Hval Hm Hkw.
   - simpl in *. destruct path; [|discriminate]. injection Hm as <-. now rewrite app_nil_r.
   - (* literal *)
-    simpl in *. destruct (prefixb s path) eqn:Ep; [|discriminate].
+    simpl in Hid, Hlen, Hm. destruct (prefixb s path) eqn:Ep; [|discriminate].
     apply prefixb_spec in Ep. destruct Ep as [rest ->].
     rewrite skipn_app_exact in Hm.
-    rewrite (IH names rest vs (t ++ s)); auto.
-    + now rewrite app_assoc.
-    + unfold valid_str in *. apply Forall_app in Hval. tauto.
+    cbn [spec_go push validates]. rewrite app_assoc.
+    apply IH; auto.
+    unfold valid_str in *. apply Forall_app in Hval. tauto.
   - (* wildcard *)
     simpl in Hid. apply andb_true_iff in Hid. destruct Hid as [Hf Hid].
     simpl in Hlen. destruct names as [|n names]; [discriminate|]. injection Hlen as Hlen.
@@ -136,27 +136,40 @@ Proof.
     destruct Hv as [k [-> ->]].
     assert (Hpv : pyval_of_value (firstn k path) = PStr (firstn k path))
       by (apply pyval_of_valid_str, valid_str_firstn, Hval).
-    assert (Hfetch : fetch kw n (anon_args (n :: names) (map pyval_of_value (firstn k path :: vs')))
-                     = inr (PStr (firstn k path), anon_args names (map pyval_of_value vs'))).
-    { unfold fetch. cbn [map anon_args]. destruct (is_anon n) eqn:Ea.
-      - now rewrite Hpv.
-      - rewrite (Hkw n (firstn k path)); [now rewrite Hpv | now left | exact Ea]. }
-    cbn [spec_go]. rewrite Hfetch.
     assert (Hfmt : format kind f (PStr (firstn k path)) = inr (PStr (firstn k path))).
     { unfold format. destruct f as [k0|]; [|reflexivity].
       destruct (f_out_of (kind k0)); [discriminate | reflexivity]. }
-    rewrite Hfmt.
-    assert (Hrest : forall t',
-               spec_go kind rx fconv kw p names (anon_args names (map pyval_of_value vs')) (Some t')
-               = if validates kind rx fconv p vs' then UOk (t' ++ skipn k path) else UAssertionError).
-    { intros t'. apply IH; auto.
+    assert (Hrest :
+               spec_go kind rx fconv kw p names (anon_args names (map pyval_of_value vs'))
+                       (push (Some t) (PStr (firstn k path)))
+               = if validates kind rx fconv p vs' then UOk (t ++ path) else UAssertionError).
+    { cbn [push].
+      replace (t ++ path) with ((t ++ firstn k path) ++ skipn k path)
+        by (now rewrite <- app_assoc, firstn_skipn).
+      apply IH; auto.
       - now apply valid_str_skipn.
       - intros n' v' Hin. apply Hkw. now right. }
-    cbn [validates]. destruct f as [k0|]; cbn [check].
-    + unfold validate.
-      destruct (handler kind rx fconv k0 (firstn k path ++ next_lit p)) as [[v' [|m]]|]; try reflexivity.
-      cbn [push]. rewrite Hrest, <- app_assoc, firstn_skipn. reflexivity.
-    + cbn [push]. rewrite Hrest, <- app_assoc, firstn_skipn. reflexivity.
+    assert (Hgo :
+              match format kind f (PStr (firstn k path)) with
+              | inl e => e
+              | inr prt =>
+                match check kind rx fconv f prt (next_lit p) with
+                | Some e => e
+                | None => spec_go kind rx fconv kw p names
+                                  (anon_args names (map pyval_of_value vs')) (push (Some t) prt)
+                end
+              end
+              = if validates kind rx fconv (Wild f :: p) (firstn k path :: vs')
+                then UOk (t ++ path) else UAssertionError).
+    { rewrite Hfmt. cbn [validates]. destruct f as [k0|]; cbn [check].
+      - unfold validate.
+        destruct (handler kind rx fconv k0 (firstn k path ++ next_lit p)) as [[v' [|m]]|]; try reflexivity.
+        exact Hrest.
+      - exact Hrest. }
+    cbn [spec_go map anon_args]. unfold fetch.
+    destruct (is_anon n) eqn:Ea.
+    + rewrite Hpv. exact Hgo.
+    + rewrite (Hkw n (firstn k path)); [| now left | exact Ea]. rewrite Hpv. exact Hgo.
 Qed.
 
 End Identity.
@@ -248,4 +261,70 @@ Proof.
   intros Hok Hp Hn Hval Hm.
   rewrite (identity_formatters_lemma kind rx fconv p names path vs); auto using plain_identity.
   now rewrite plain_validates.
+Qed.
+
+(* ---- RadiRouter.resolve strips '/' from both ends: stripping is idempotent,
+   so a built url that equals an already stripped path is looked up as it is ---- *)
+
+Section Strip.
+Context {A : Type} (m : A -> bool).
+
+Definition headok (l : list A) : Prop := match l with [] => True | x :: _ => m x = false end.
+
+Lemma lstrip_headok l : headok (lstrip_set m l).
+Proof. induction l as [|x l IH]; simpl; [exact I|]. destruct (m x) eqn:E; [exact IH | exact E]. Qed.
+
+Lemma headok_lstrip l : headok l -> lstrip_set m l = l.
+Proof. destruct l as [|x l]; simpl; [reflexivity|]. now intros ->. Qed.
+
+Lemma lstrip_suffix l : exists w, l = w ++ lstrip_set m l.
+Proof.
+  induction l as [|x l [w IH]]; simpl; [now exists []|].
+  destruct (m x); [exists (x :: w); simpl; now f_equal | now exists []].
+Qed.
+
+Lemma rstrip_prefix l : exists w, l = rstrip_set m l ++ w.
+Proof.
+  unfold rstrip_set. destruct (lstrip_suffix (rev l)) as [w Hw].
+  exists (rev w). rewrite <- rev_app_distr, <- Hw. now rewrite rev_involutive.
+Qed.
+
+Lemma rstrip_headok l : headok l -> headok (rstrip_set m l).
+Proof.
+  intros H. destruct (rstrip_prefix l) as [w Hw].
+  destruct (rstrip_set m l) as [|x r]; [exact I|]. rewrite Hw in H. exact H.
+Qed.
+
+Lemma strip_set_idem l : strip_set m (strip_set m l) = strip_set m l.
+Proof.
+  unfold strip_set.
+  rewrite (headok_lstrip (rstrip_set m (lstrip_set m l))) by apply rstrip_headok, lstrip_headok.
+  unfold rstrip_set. rewrite rev_involutive. f_equal.
+  apply headok_lstrip, lstrip_headok.
+Qed.
+End Strip.
+
+Lemma strip_slash_idem s : strip_slash (strip_slash s) = strip_slash s.
+Proof. apply strip_set_idem. Qed.
+
+(* the statement at the level of RadiRouter.resolve: the request path and the
+   built url are both stripped of '/' before the rule is applied *)
+Lemma identity_resolve_lemma kind rx fconv p names path0 vs u :
+  lits_ok p = true ->
+  identity_fmt kind p = true ->
+  names_ok p names ->
+  valid_str path0 ->
+  match1 (handler kind rx fconv) p (strip_slash path0) = Some vs ->
+  url_of_match kind rx fconv p names vs = UOk u ->
+  match1 (handler kind rx fconv) p (strip_slash u) = Some vs.
+Proof.
+  intros Hok Hid Hn Hval Hm Hu.
+  assert (Hv : valid_str (strip_slash path0)).
+  { unfold strip_slash, strip_set.
+    destruct (rstrip_prefix (fun c => c =? SLASH) (lstrip_set (fun c => c =? SLASH) path0)) as [w Hw].
+    destruct (lstrip_suffix (fun c => c =? SLASH) path0) as [w' Hw'].
+    unfold valid_str in *. rewrite Hw' in Hval. apply Forall_app in Hval. destruct Hval as [_ Hval].
+    rewrite Hw in Hval. apply Forall_app in Hval. tauto. }
+  destruct (identity_roundtrip_lemma kind rx fconv p names _ vs u Hok Hid Hn Hv Hm Hu) as [-> _].
+  now rewrite strip_slash_idem.
 Qed.
